@@ -65,9 +65,11 @@ func (c *Cache[K, V]) Put(key K, val V) bool {
 		c.count--
 	}
 
-	// If necessary, evict items to make room.
-	newSize := c.size + valSize
-	for newSize > c.limit {
+	// If necessary, evict items to make room. The test is written so that it
+	// cannot overflow when the limit is close to the largest int64: valSize is
+	// at most c.limit here, so the difference is not negative.
+	newSize := c.size
+	for newSize > c.limit-valSize {
 		ek, ev := c.store.Evict()
 		c.onEvict(ek, ev)
 		c.count--
@@ -76,7 +78,7 @@ func (c *Cache[K, V]) Put(key K, val V) bool {
 
 	// Now there is room.
 	c.store.Store(key, val)
-	c.size = newSize
+	c.size = newSize + valSize
 	c.count++
 	return true
 }
